@@ -308,8 +308,17 @@ def m_include(rng, fs):
         main["includes"] = list(main["includes"]) + [B["main"]]
         return B, {"rule": "include_cycle", "where": "main"}
     inc = [f for f in files if f["path"] != B["main"]]
-    rng.choice(inc)["includes"] = list(rng.choice(inc)["includes"]) + [B["main"]]
-    # make sure the cycle is reachable: main includes every other file in generated sets' last hop
+    f = rng.choice(inc)
+    r2 = rng.random()
+    if r2 < 0.4:
+        f["includes"] = list(f["includes"]) + [B["main"]]          # back to the root
+    elif r2 < 0.7 or len(inc) < 2:
+        f["includes"] = list(f["includes"]) + [f["path"]]          # an included file includes itself
+    else:
+        g = rng.choice([x for x in inc if x is not f])              # a ring among included files only
+        f["includes"] = list(f["includes"]) + [g["path"]]
+        g["includes"] = list(g["includes"]) + [f["path"]]
+    # generated sets keep only files the main file reaches, so the cycle is reachable
     return B, {"rule": "include_cycle", "where": "inc"}
 
 
